@@ -2,10 +2,10 @@
   C01 helpers, part 8: `MetadataGenerator.generate` — assembly of detect / merge / optimize.
 -/
 import J2M.Proofs.InhOptimize
+import J2M.Proofs.GenEnv
 namespace J2M
 
 /-- the comparison environment `generate` uses: no model pointers yet -/
-def genEnv (o : GenOracles) : EqEnv := ⟨o.str, fun i => "Model#" ++ i, fun _ => none, 1000000⟩
 
 theorem generate_eq (cfg : GenCfg) (o : GenOracles) (samples : List Json) :
     generate cfg o samples = (do
